@@ -619,6 +619,7 @@ struct Params {
   // the search (counted as excluded) unless the case explicitly asks for it (hdr[8] == 1: the known-finding replay file)
   bool known_shape = false, force = false;
   bool abandon_by_assignment = false;  // the unstarted Task is overwritten by move-assignment instead of being destroyed
+  int head_fail = 0;  // MakeTask head: 0 holds a value, 1 an error (code 7), 2 an exception (id 7)
   int run_variant = 0;  // eager Run sources: 0 Run(e, f), 1 AsyncContract<V>(e, f) with f(Promise) setting the value
   std::vector<Step> prog;
 };
@@ -627,6 +628,7 @@ Params Decode(const Case& c) {
   Params p{};
   p.source = c.H(0) % kSourceN;
   p.se = c.H(1) % 2;
+  p.head_fail = c.H(0) % kSourceN == kMakeTask && p.se == 0 ? c.H(1) / 2 % 3 : 0;
   for (int e = 0; e < 2; ++e) {
     const int v = c.H(static_cast<std::size_t>(2 + e)) % 12;
     p.rej[e] = v < 4 ? v : 1 << 30;  // one third of the executors refuse from their k-th Submit (k = 0..3)
@@ -736,15 +738,16 @@ void RunModel(const Params& p, Outcome& o) {
     } else if (p.start == kDetach || p.start == kDetachOn) {
       m.constructs += 1;  // sink step
     }
+    const MRes stored = p.head_fail == 1 ? MRes{2, 0, 7} : p.head_fail == 2 ? MRes{1, 0, 7} : MRes{0, 1, 0};
     if (head_exec == 0) {
-      cur = {0, 1, 0};
+      cur = stored;
     } else if (head_exec == -1) {
       cur = {2, 0, -1};
     } else if (m.Submit(head_exec - 1)) {
-      cur = {0, 1, 0};
+      cur = stored;
       ctx = head_exec;
     } else {
-      cur = {2, 0, -1};
+      cur = {2, 0, -1};  // a refused (or cancelled) ready head is replaced by StopError whatever it held
     }
   }
   for (std::size_t i = 0; i < p.prog.size(); ++i) {
@@ -863,6 +866,10 @@ void RunReal(const Params& p, Outcome& o, int source_override = -1) {
       case kMakeTask:
         if (p.se == 1) {  // same observable behaviour as MakeTask(1): one allocation (the frame), value 1, lazy
           Extend(CoHead(&c, vf::Guard{}), c);
+        } else if (p.head_fail == 1) {
+          Extend(yaclib::MakeTask<int, TErr>(TErr{7}), c);
+        } else if (p.head_fail == 2) {
+          Extend(yaclib::MakeTask<int, TErr>(std::make_exception_ptr(Boom{7})), c);
         } else {
           Extend(yaclib::MakeTask<int, TErr>(1), c);
         }
@@ -962,6 +969,9 @@ std::string Compare(const Params& p, int clause) {
         if (o.log.size() != o.mlog.size()) {
           return "abandoned Task: set of callbacks that ran differs from the cancelled-chain model";
         }
+        if (o.tracked_err == nullptr && vf::TS().Live() != 0) {
+          return "abandoned Task: not every captured functor was released";
+        }
         return "";
       }
       if (o.fstate != o.cur.st || (o.cur.st == 0 && !o.vvoid && o.fval != o.cur.val) || (o.cur.st != 0 && o.fcode != o.cur.code)) {
@@ -977,7 +987,12 @@ std::string Compare(const Params& p, int clause) {
         Outcome twin;
         Params q = p;
         q.start = kToFuture;
-        RunReal(q, twin, p.source == kMakeTask || p.source == kLazyContract ? kReadyValue : p.source == kScheduleStopped ? kRunStopped : kRun);
+        RunReal(q, twin,
+                p.source == kMakeTask && p.head_fail == 1   ? kReadyError
+                : p.source == kMakeTask && p.head_fail == 2 ? kReadyException
+                : p.source == kMakeTask || p.source == kLazyContract ? kReadyValue
+                : p.source == kScheduleStopped                       ? kRunStopped
+                                                                     : kRun);
         if (twin.fstate != o.fstate || twin.fval != o.fval || twin.fcode != o.fcode) {
           std::snprintf(buf, sizeof buf, "lazy pipeline and its eager twin differ: lazy=(%d,%d,%d) eager=(%d,%d,%d)", o.fstate,
                         o.fval, o.fcode, twin.fstate, twin.fval, twin.fcode);
@@ -1036,7 +1051,7 @@ class PipeFamily final : public vf::Family {
     return rc::gen::exec([]() {
       Case c;
       c.recw = 5;
-      c.hdr = {vf::Pick(0, kSourceN), vf::Pick(0, 2), vf::Pick(0, 12), vf::Pick(0, 12),
+      c.hdr = {vf::Pick(0, kSourceN), vf::Pick(0, 6), vf::Pick(0, 12), vf::Pick(0, 12),
                vf::Pick(0, kStartN),  vf::Pick(0, 2), vf::Pick(0, 8),  vf::Pick(0, 2)};
       const int n = vf::Pick(0, 8);
       for (int i = 0; i < n; ++i) {
@@ -1054,6 +1069,7 @@ class PipeFamily final : public vf::Family {
     char b[128];
     std::string s = std::string("source=") +
                     (p.source == kMakeTask && p.se == 1                                  ? "coroutine Task head"
+                     : p.source == kMakeTask && p.head_fail != 0                         ? (p.head_fail == 1 ? "MakeTask(error)" : "MakeTask(exception)")
                      : (p.source == kRun || p.source == kRunStopped) && p.run_variant == 1 ? (p.source == kRun ? "AsyncContract(e)" : "AsyncContract(stopped Inline)")
                                                                                            : kSourceName[p.source]) +
                     " se=" + std::to_string(p.se + 1);
